@@ -300,6 +300,28 @@ def run(tier):
         okw = src is not None and src[1][2] == 'from' and off(src[1][0]) == 1 and term_of_operand(jb, ch[0][1].args[1]) == ('const', 16) and _before(jb, [bb for bb, t in jb.calls() if callee_name(t).endswith('write_mic')][0], dbk[0][0])
     res.require(okw, 'C01:JoinAccept::build_into:wrapping', 'JoinAccept is not MIC-ed first and then transformed with the block decrypt primitive over out[1..] in 16-byte blocks', jb.body.path,
                 'ORDER(write_mic => decrypt blocks) + WHO-CALLS(decrypt primitive)', instance='JoinAccept: MIC appended, then AES-decrypt over bytes 1.. in 16-byte blocks')
+    # ------------------------------------------------------------------ primitive binding of the software crypto
+    cmf = c.bf(E + 'default_crypto::calculate_mic')
+    ups = [(bb, t) for bb, t in cmf.calls() if callee_name(t).endswith('Mac::update')]
+    fin = [(bb, t) for bb, t in cmf.calls() if callee_name(t).endswith('Mac::finalize')]
+    okp = len(ups) == 2 and len(fin) == 1
+    if okp:
+        a0 = peel(term_of_operand(cmf, ups[0][1].args[1]))
+        a1 = peel(term_of_operand(cmf, ups[1][1].args[1]))
+        okp = a0 == ('param', 2) and a1 == ('param', 3) and cmf.cfg.dominates(ups[0][0], ups[1][0]) and cmf.cfg.dominates(ups[1][0], fin[0][0])
+        idx = [(bb, t) for bb, t in cmf.calls() if callee_name(t).endswith('Index::index')]
+        okp = okp and any(range_of(term_of_operand(cmf, t.args[1])) == (('const', 0), ('const', 4), 'range') for bb, t in idx)
+    res.require(okp, 'C01:default_crypto::calculate_mic', 'software MIC is not the first 4 bytes of CMAC(update(b0); update(data))', cmf.body.path, 'ORDER(update b0, update data, finalize) + SPEC-LAYOUT(tag[0..4])',
+                instance='DefaultCrypto MIC: cmac over b0 then data, first four tag bytes')
+    for ty, meth, prim in (('DefaultCrypto', 'encrypt_block', 'BlockCipherEncrypt::encrypt_block'), ('DefaultNetworkCrypto', 'encrypt_block', 'BlockCipherEncrypt::encrypt_block'),
+                           ('DefaultNetworkCrypto', 'decrypt_block', 'BlockCipherDecrypt::decrypt_block')):
+        l = [p_ for p_ in prog.by_short if p_.startswith('<' + E + 'default_crypto::' + ty + ' as ') and p_.endswith('::' + meth)]
+        if len(l) != 1:
+            raise CheckError('anchor: %s::%s' % (ty, meth))
+        bfx = c.pf.bf(prog.by_short[l[0]][0])
+        prims = [callee_name(t) for bb, t in bfx.calls() if 'Block' in callee_name(t) and 'crypt_block' in callee_name(t)]
+        res.require(len(prims) == 1 and prims[0].endswith(prim.split('::')[-1]) and ('Encrypt' in prims[0]) == ('Encrypt' in prim), 'C01:%s::%s:primitive' % (ty, meth),
+                    '%s::%s calls %s (expected the AES %s primitive)' % (ty, meth, prims, prim), bfx.body.path, 'WHO-CALLS(block primitive)', instance='%s::%s -> %s' % (ty, meth, prim))
     res.coverage.update({'configs': [c.info], 'fctrl_combinations': n_combo, 'functions': ['DataFrame::build_into', 'DataFrame::mhdr', 'DataFrame::fctrl', 'generate_helper_block', 'calculate_data_mic',
                                                                                              'encrypt_frm_data_payload', 'JoinAccept::build_into'],
                          'join_request': 'JoinRequest layout, MIC placement (write_mic) and the session-key block are decided in C11'})
